@@ -10,6 +10,8 @@ CONSTANTS
   MaxParties = 2
   HistLen = 2
   JwsEmbeds = {TRUE}
+  PayClasses = {"pattern"}
+  KeyVars = {"plain"}
   Deviation = "shared-entry-header"
 INVARIANTS HRoundTrip
 CHECK_DEADLOCK FALSE
